@@ -55,7 +55,7 @@ class Check(BaseCheck):
     def correspond(self, drv, stats):
         fails = []
         rng = gen.rng_for(self.seed, "c04c")
-        for case in self.problems(self.seed, 14 if self.quick else 150):
+        for case in self.problems(self.seed, 14 if self.quick else 600):
             kind, v, t, k = case["kind"], case["v"], case["t"], case["k"]
             gen.use(case)
             stats.case(core.mesh_key(v, t, k, case["lump"]), cls=[kind + ":" + case["name"], "k:%d" % k],
